@@ -2,7 +2,14 @@
 (output = subsequence of the input observations), never fails on duplicates / revisits / closed
 loops; Douglas-Peucker additionally keeps every input fix within the tolerance of its output.
 
-Oracle (independent of tracklib): record matcher on (x, y, z, t) + own point-polyline distance."""
+Oracle (independent of tracklib): record matcher on (x, y, z, t) + own point-polyline distance.
+
+A case is one Track object and a HISTORY of calls on it: the first call (case["mode"], case["tol"]) and then
+case["more"] = [{"edit": ..., "mode": ..., "tol": ...}, ...]: each further call is preceded by an in-place edit of the
+SAME Track object (a fix moved with setX/setY, a fix appended with addObs, a fix removed with removeObs, or no edit).
+The model (list of fixes and timestamps) is edited alongside, and EVERY call is judged with the full oracle against
+the model as it is at the time of that call.  case["ints"] hands integer-valued coordinates to tracklib as Python
+ints (gen.make_track(..., ints=True)); the oracle works on the same numbers as floats."""
 import itertools
 import math
 
@@ -11,18 +18,27 @@ from hypothesis import strategies as st
 from tracklib.algo.simplification import (MODE_SIMPLIFY_DOUGLAS_PEUCKER, MODE_SIMPLIFY_VISVALINGAM,
                                           simplify)
 
+from tracklib.core.obs import Obs
+from tracklib.core.obs_coords import ENUCoords
+
 from vt import gen, oracle
-from vt.core import SubCheck, Violation, exc_key
+from vt.core import HarnessError, SubCheck, Violation, exc_key
 
 MODES = {"dp": MODE_SIMPLIFY_DOUGLAS_PEUCKER, "vv": MODE_SIMPLIFY_VISVALINGAM}
 
 ASSUMPTIONS = [
     "tracks are ENU, 2..12 fixes (enumerated part: 2..4 fixes on {0,1,2}^2), strictly increasing timestamps "
     "1 s apart, so every observation record (x, y, z, t) is unique and the subsequence embedding is unique",
+    "coordinate type: floats, or (case['ints']) Python ints wherever the value is integer-valued - same numbers, same oracle",
+    "history on one Track object (case['more'], 0..3 further calls): between two calls the object may be edited in place "
+    "(position.setX/setY of one fix, addObs of a later-stamped fix, removeObs of any fix while >= 3 remain, or nothing); "
+    "either algorithm and any tolerance at every call; each call is judged against the fixes the object holds at that "
+    "time (model kept from the case data, never read back from tracklib); timestamps stay strictly increasing",
     "float tracks: coordinates = offset + magnitude * k/2^40 (|k| <= 2^40), magnitude in {1, 1e3, 1e6}, so two coordinates are "
     "equal or differ by >= 2^-40 ~ 9e-13 (squares of legs do not underflow - neither in tracklib nor in the reference distance)",
-    "tolerance > 0 and finite, from 1e-3 x extent to 1e3 x extent, plus lattice-aligned values and values equal to "
-    "the exact distance of a fix from the end-to-end chord (ties with the tolerance)",
+    "tolerance > 0 and finite, from 1e-3 x extent to 1e3 x extent, plus lattice-aligned values, values equal to "
+    "the exact distance of a fix from the end-to-end chord (ties with the tolerance) and values d*(1 +- f), f in 1e-6..0.2, "
+    "around the distance d of a fix from the chord of two other fixes (tolerances close to the actual deviations)",
     "Douglas-Peucker bound: planar distance of every input fix to the output polyline <= tol + 1e-9*(tol + max|coordinate|) "
     "(reference: clamped-projection point-segment distance in vt/oracle.py; the slack covers tracklib's own rounding "
     "when it compares its computed distance with the tolerance)",
@@ -64,25 +80,11 @@ def _features_of(pts):
     return cls
 
 
-def _check(case):
-    mode, pts, tol = case["mode"], case["pts"], float(case["tol"])
-    n = len(pts)
-    if n < 2 or not (tol > 0) or math.isinf(tol):
-        return {"undef": True}
-    pts3 = [(float(p[0]), float(p[1]), float(p[2]) if len(p) > 2 else 0.0) for p in pts]
-    tr = gen.make_track(pts3)
-    want = [r[:4] for r in gen.track_records(tr)]
-    try:
-        out = simplify(tr, tol, MODES[mode])
-    except IndexError as e:
-        if mode == "vv" and exc_key(e) == "exc:IndexError:getObsAnalyticalFeature":
-            # the elimination loop read '@aire' of fix 0 of a track it has emptied.  Root cause: nothing protects the
-            # end fixes and nothing stops the elimination at two fixes
-            raise Violation("visvalingam-removes-everything",
-                            "visvalingam(%d fixes, eps=%r) raised IndexError: %s" % (n, tol, e))
-        raise
+def _judge(mode, pts3, times, tol, out, what):
+    """full oracle for one call: subsequence + both end fixes (+ tolerance for Douglas-Peucker); returns kept indices"""
+    n = len(pts3)
+    want = [(p[0], p[1], p[2], t) for p, t in zip(pts3, times)]
     got = [r[:4] for r in gen.track_records(out)]
-
     # -- subsequence (records are unique, so the embedding is unique) -----------------------------
     idx = []
     k = 0
@@ -91,15 +93,15 @@ def _check(case):
             k += 1
         if k == n:
             who = "an observation that is not in the input (or out of order)"
-            raise Violation(mode + "-not-a-subsequence", "output record %s is %s; input %s, tol %r, output %s" % (
-                (r,), who, pts, tol, got))
+            raise Violation(mode + "-not-a-subsequence", "%soutput record %s is %s; input %s, tol %r, output %s" % (
+                what, (r,), who, pts3, tol, got))
         idx.append(k)
         k += 1
     # -- end points ----------------------------------------------------------------------------------
     if not idx or idx[0] != 0:
-        raise Violation(mode + "-first-fix-dropped", "input %s tol %r -> kept indices %s" % (pts, tol, idx))
+        raise Violation(mode + "-first-fix-dropped", "%sinput %s tol %r -> kept indices %s" % (what, pts3, tol, idx))
     if idx[-1] != n - 1:
-        raise Violation(mode + "-last-fix-dropped", "input %s tol %r -> kept indices %s" % (pts, tol, idx))
+        raise Violation(mode + "-last-fix-dropped", "%sinput %s tol %r -> kept indices %s" % (what, pts3, tol, idx))
     # -- tolerance (Douglas-Peucker only) -----------------------------------------------------------
     if mode == "dp":
         kept = [pts3[i] for i in idx]
@@ -108,9 +110,14 @@ def _check(case):
         for i, p in enumerate(pts3):
             d = oracle.pt_polyline_dist(p[0], p[1], kept)
             if d > bound:
-                raise Violation("dp-tolerance-exceeded", "fix %d %s is %r away from the simplified line %s, tol %r" % (
-                    i, p, d, kept, tol))
-    cls = _features_of(pts)
+                raise Violation("dp-tolerance-exceeded", "%sfix %d %s is %r away from the simplified line %s, tol %r" % (
+                    what, i, p, d, kept, tol))
+    return idx
+
+
+def _cls_call(mode, pts3, tol, idx):
+    n = len(pts3)
+    cls = _features_of(pts3)
     special = bool(cls)
     shorter = len(idx) < n
     cls = [mode + ":" + c for c in cls] or [mode + ":plain"]
@@ -123,7 +130,93 @@ def _check(case):
         cls.append(mode + ":tol==distance-of-a-fix-from-the-chord")
         if abs(max(chord) - tol) <= 1e-12 * tol:
             cls.append(mode + ":tol==distance-of-the-farthest-fix")
-    return {"nt": special and shorter, "cls": cls}
+    elif any(d > 0 and abs(d - tol) <= 0.25 * d for d in chord):
+        cls.append(mode + ":tol-within-25%-of-a-fix-chord-distance")
+    return special and shorter, cls
+
+
+def _num(v, ints):
+    return gen.as_int_if_integral(float(v)) if ints else float(v)
+
+
+def _simplify(tr, tol, mode, n):
+    try:
+        return simplify(tr, tol, MODES[mode])
+    except IndexError as e:
+        if mode == "vv" and exc_key(e) == "exc:IndexError:getObsAnalyticalFeature":
+            # the elimination loop read '@aire' of fix 0 of a track it has emptied.  Root cause: nothing protects the
+            # end fixes and nothing stops the elimination at two fixes
+            raise Violation("visvalingam-removes-everything",
+                            "visvalingam(%d fixes, eps=%r) raised IndexError: %s" % (n, tol, e))
+        raise
+
+
+def _check(case):
+    mode, pts, tol = case["mode"], case["pts"], float(case["tol"])
+    ints = bool(case.get("ints"))
+    more = case.get("more") or []
+    n = len(pts)
+    if n < 2 or not (tol > 0) or math.isinf(tol):
+        return {"undef": True}
+    if any(not (float(st_["tol"]) > 0) or math.isinf(float(st_["tol"])) for st_ in more):
+        return {"undef": True}
+    pts3 = [(float(p[0]), float(p[1]), float(p[2]) if len(p) > 2 else 0.0) for p in pts]
+    t0 = gen.ms_of_fields(2020, 1, 1)
+    times = [t0 + 1000 * i for i in range(n)]
+    tr = gen.make_track(pts3, times, ints=ints)
+
+    out = _simplify(tr, tol, mode, n)
+    idx = _judge(mode, pts3, times, tol, out, "")
+    nt, cls = _cls_call(mode, pts3, tol, idx)
+    integral = all(float(c) == int(c) for p in pts3 for c in p[:2])
+    if ints:
+        cls.append("ints:all-xy-handed-over-as-int" if integral else "ints:some-xy-not-integer-valued")
+    else:
+        cls.append("floats:integer-valued-xy" if integral else "floats")
+    cls.append("history:%d-further-calls" % len(more))
+
+    # -- further calls on the SAME Track object, each after an in-place edit; each judged in full -------------
+    prev_mode = mode
+    for step, st_ in enumerate(more):
+        edit = st_.get("edit")
+        kind = edit[0] if edit else "none"
+        if kind == "move":
+            i = edit[1] % len(pts3)
+            x, y = float(edit[2]), float(edit[3])
+            pos = tr.getObs(i).position
+            pos.setX(_num(x, ints))
+            pos.setY(_num(y, ints))
+            pts3[i] = (x, y, pts3[i][2])
+        elif kind == "add":
+            x, y, z = float(edit[1]), float(edit[2]), float(edit[3])
+            t = times[-1] + 1000
+            tr.addObs(Obs(ENUCoords(_num(x, ints), _num(y, ints), _num(z, ints)), gen.obstime_of_ms(t)))
+            pts3.append((x, y, z))
+            times.append(t)
+        elif kind == "remove":
+            if len(pts3) <= 2:
+                kind = "none"                    # fewer than 2 fixes is outside the property
+            else:
+                i = edit[1] % len(pts3)
+                tr.removeObs(i)
+                del pts3[i]
+                del times[i]
+        elif kind != "none":
+            raise HarnessError("unknown edit %r" % (edit,))
+        if tr.size() != len(pts3):
+            raise Violation("edit-size-wrong", "after edit %r the track has %d fixes, model %d" % (edit, tr.size(), len(pts3)))
+        m2, tol2 = st_["mode"], float(st_["tol"])
+        what = "call %d of a history on one Track object (after edit %r; earlier calls %s): " % (
+            step + 2, edit, [(mode, tol)] + [(s["mode"], s["tol"]) for s in more[:step]])
+        out = _simplify(tr, tol2, m2, len(pts3))
+        idx = _judge(m2, pts3, times, tol2, out, what)
+        nt2, cls2 = _cls_call(m2, pts3, tol2, idx)
+        nt = nt or nt2
+        cls.extend(c for c in cls2 if c not in cls)
+        cls.append("history:edit-" + kind)
+        cls.append("history:%s-after-%s" % (m2, prev_mode) + ("-edited" if kind != "none" else "-unedited"))
+        prev_mode = m2
+    return {"nt": nt, "cls": sorted(set(cls))}
 
 
 # ------------------------------------------------------------------------------------------------
@@ -224,24 +317,92 @@ def _float_track(draw):
     return pts
 
 
+_NEAR = [1e-6, 1e-3, 0.01, 0.03, 0.06, 0.1, 0.2]
+
+
+@st.composite
+def _tolerance(draw, pts):
+    ext = _extent(pts)
+    n = len(pts)
+    kind = draw(st.sampled_from(["factor", "factor", "aligned", "tie", "tie", "near", "near", "near"]))
+    if kind == "near" and n < 3:
+        kind = "factor"
+    if kind == "factor":
+        return ext * draw(st.sampled_from([1e-3, 0.01, 0.1, 0.1, 0.3, 0.3, 1.0, 10.0, 1e3]))
+    if kind == "aligned":
+        unit = min([abs(pts[i + 1][j] - pts[i][j]) for i in range(len(pts) - 1) for j in (0, 1)
+                    if pts[i + 1][j] != pts[i][j]] or [1.0])
+        return unit * draw(st.sampled_from([0.5, 1.0, 2.0, math.sqrt(2), math.sqrt(0.5), 5.0]))
+    if kind == "tie":                 # exactly the distance of one fix from the end-to-end chord
+        k = draw(st.integers(0, n - 1))
+        tol = oracle.pt_seg_dist(pts[k][0], pts[k][1], pts[0][0], pts[0][1], pts[-1][0], pts[-1][1])
+        return tol if tol > 0 else 0.1 * ext
+    # near: just below / just above the deviation of fix k from the chord of fixes i < k < j (the end-to-end chord in
+    # half of the draws): the decisions "farthest fix within the tolerance?" are then taken close to their threshold
+    if draw(st.booleans()):
+        i, j = 0, n - 1
+    else:
+        i = draw(st.integers(0, n - 3))
+        j = draw(st.integers(i + 2, n - 1))
+    k = draw(st.integers(i + 1, j - 1))
+    d = oracle.pt_seg_dist(pts[k][0], pts[k][1], pts[i][0], pts[i][1], pts[j][0], pts[j][1])
+    if not d > 0:
+        far = max(oracle.pt_seg_dist(p[0], p[1], pts[i][0], pts[i][1], pts[j][0], pts[j][1]) for p in pts)
+        d = far if far > 0 else 0.1 * ext
+    return d * (1.0 + draw(st.sampled_from([-1.0, -1.0, 1.0])) * draw(st.sampled_from(_NEAR)))
+
+
+@st.composite
+def _edit(draw, pts):
+    """an in-place edit of the track; new positions are lattice combinations of existing fixes (stay integer-valued
+    on integer tracks) at distances comparable with the extent"""
+    n = len(pts)
+    kind = draw(st.sampled_from(["move", "move", "move", "add", "add", "remove", "none"]))
+    if kind == "none" or (kind == "remove" and n <= 2):
+        return None
+    if kind == "remove":
+        return ["remove", draw(st.sampled_from([0, n - 1, n - 1] + list(range(n))))]
+    a, b, c = (draw(st.integers(0, n - 1)) for _ in range(3))
+    m = draw(st.sampled_from([-3, -2, -1, 1, 1, 2, 3, 10]))
+    vx, vy = pts[b][0] - pts[c][0], pts[b][1] - pts[c][1]
+    if vx == 0 and vy == 0:
+        ext = _extent(pts)
+        vx, vy = draw(st.sampled_from([(ext, 0.0), (0.0, ext), (ext, ext), (-ext, 2 * ext)]))
+    if draw(st.booleans()):
+        vx, vy = -vy, vx                       # sideways of an existing direction
+    x, y = pts[a][0] + m * vx, pts[a][1] + m * vy
+    if kind == "move":
+        return ["move", draw(st.integers(0, n - 1)), x, y]
+    return ["add", x, y, float(n % 3)]
+
+
+def _apply_edit(pts, edit):
+    pts = [list(p) for p in pts]
+    if edit is None:
+        return pts
+    if edit[0] == "move":
+        pts[edit[1] % len(pts)][:2] = [edit[2], edit[3]]
+    elif edit[0] == "add":
+        pts.append([edit[1], edit[2], edit[3]])
+    elif edit[0] == "remove" and len(pts) > 2:
+        del pts[edit[1] % len(pts)]
+    return pts
+
+
+_MODE = st.sampled_from(["dp", "dp", "vv"])
+
+
 @st.composite
 def strat_track(draw):
     pts = draw(st.one_of(_lattice_track(), _lattice_track(), _float_track()))
-    ext = _extent(pts)
-    kind = draw(st.sampled_from(["factor", "factor", "aligned", "tie", "tie"]))
-    if kind == "factor":
-        tol = ext * draw(st.sampled_from([1e-3, 0.01, 0.1, 0.1, 0.3, 0.3, 1.0, 10.0, 1e3]))
-    elif kind == "aligned":
-        unit = min([abs(pts[i + 1][j] - pts[i][j]) for i in range(len(pts) - 1) for j in (0, 1)
-                    if pts[i + 1][j] != pts[i][j]] or [1.0])
-        tol = unit * draw(st.sampled_from([0.5, 1.0, 2.0, math.sqrt(2), math.sqrt(0.5), 5.0]))
-    else:                           # exactly the distance of one fix from the end-to-end chord
-        k = draw(st.integers(0, len(pts) - 1))
-        tol = oracle.pt_seg_dist(pts[k][0], pts[k][1], pts[0][0], pts[0][1], pts[-1][0], pts[-1][1])
-        if not tol > 0:
-            tol = 0.1 * ext
-    mode = draw(st.sampled_from(["dp", "dp", "vv"]))
-    return {"mode": mode, "pts": pts, "tol": tol}
+    case = {"mode": draw(_MODE), "pts": pts, "tol": draw(_tolerance(pts)), "ints": draw(st.booleans()), "more": []}
+    cur = pts
+    for _ in range(draw(st.sampled_from([0, 0, 0, 1, 1, 1, 2, 3]))):
+        edit = draw(_edit(cur))
+        cur = _apply_edit(cur, edit)
+        tol = case["tol"] if draw(st.integers(0, 2)) == 0 else draw(_tolerance(cur))
+        case["more"].append({"edit": edit, "mode": draw(_MODE), "tol": tol})
+    return case
 
 
 def body_track(case):
@@ -251,7 +412,11 @@ def body_track(case):
 RULE = ("small: every track of 2..3 (quick) / 2..4 (thorough) fixes on the lattice {0,1,2}^2, each under both algorithms and "
         "tolerances {0.25, 0.5, sqrt(1/2), 1, 1.5, 3}; tracks: Hypothesis - lattice tracks (free, random walks with zero steps, "
         "straight runs, closed loops, revisits, all-identical, one-spike lines; scaled/offset) and float tracks (with closed "
-        "loops and exact duplicates), tolerance = extent x {1e-3..1e3} | lattice-aligned | exact distance of a fix from the chord. "
+        "loops and exact duplicates), tolerance = extent x {1e-3..1e3} | lattice-aligned | exact distance of a fix from the chord | "
+        "deviation of a fix from the chord of two other fixes x (1 +- {1e-6..0.2}); half of the cases hand integer-valued "
+        "coordinates over as Python ints; 5/8 of the cases continue with 1..3 further calls on the same Track object (either "
+        "algorithm, same or new tolerance), each after an in-place edit (fix moved by a lattice combination of existing legs, "
+        "fix appended, fix removed, no edit), every call judged against the fixes at that time. "
         "Non-trivial: the track has a consecutive duplicate, a revisited position, coincident ends or a collinear triple AND the "
         "output is strictly shorter than the input. Distinct = hash of the case.")
 
